@@ -121,16 +121,30 @@ class SC__visit_block(Contract):
 
 class SC__visit_binding(Contract):
     target = 'fpy2.analysis.syntax_check:SyntaxCheckInstance._visit_binding'
-    params = {'self': 'SyntaxCheckInstance', 'binding': 'Key[NamedId] | UnderscoreId', 'env': '_Env'}
+    params = {'self': 'SyntaxCheckInstance', 'binding': 'Key[NamedId] | UnderscoreId | TupleBinding', 'env': '_Env'}
+    overrides = {'binding.elts': 'KeySeq[TupleBinding]'}
     returns = '_Env'
     properties = ['C15']
-    note = ('verified for the leaf patterns NamedId and UnderscoreId; for a TupleBinding (recursive fold over '
-            'its elements) the same contract is ASSUMED with binds(pattern, k) = "k is bound by some element"')
+    note = ('verified for NamedId, UnderscoreId and TupleBinding: the recursion over binding.elts (symbolic length; an '
+            'element is an opaque pattern, key sort `TupleBinding` used for any pattern class) by the loop rule, with the '
+            'contract itself as induction hypothesis for the elements; axioms = DEFINITION of binds_tuple as the union '
+            'over the elements (spec.c15x.binds_fold_def)')
 
-    def post(self, binding, env, result):
+    def axioms(self, binding):
+        return binds_fold_def(binding) if cls_name(binding) == 'TupleBinding' else {}
+
+    def inv0(self, binding, env, done, old):
+        return {
+            'terminated': env.terminated == old.env.terminated,
+            'names': forall_keys('NamedId', lambda k: bound(env, k) == (bound(old.env, k) or binds_prefix(binding, done, k))),
+        }
+
+    def post(self, binding, env, result, old):
         return {
             'terminated': result.terminated == env.terminated,
             'names': forall_keys('NamedId', lambda k: bound(result, k) == (bound(env, k) or binds(binding, k))),
+            # the caller's env object is not written to (it is the env of the enclosing statement)
+            'frame_env': same_env(env, old.env),
         }
 
     def raises(self, binding, env):
